@@ -206,7 +206,12 @@ fn gen_request(r: &mut Rng, id: u64) -> ReqSpec {
         6 => (1, beve::to_vec(&TIn { a: 21, b: "bv".into() }).unwrap()),
         7 => (1, { let mut m = Message::builder().body_typed_slice(&[1.5f64, -2.0, 1e300]).build(); std::mem::take(&mut m.body) }),
         8 => (1, { let mut m = Message::builder().body_typed_slice(&[7u32, 8, 9, 10]).build(); std::mem::take(&mut m.body) }),
-        9 => (*r.pick(&[0u16, 4, 999, 65535]), b"{\"a\":1,\"b\":\"z\"}".to_vec()),
+        9 => match r.below(3) {
+            0 => (*r.pick(&[0u16, 4, 999, 65535]), b"{\"a\":1,\"b\":\"z\"}".to_vec()),
+            // invalid UTF-8 inside an otherwise valid JSON string, UTF-8- and JSON-framed
+            1 => (*r.pick(&[2u16, 3]), b"{\"a\":7,\"b\":\"\xff\xfe\"}".to_vec()),
+            _ => (*r.pick(&[2u16, 3]), b"[\"\xc3\x28\",1]".to_vec()),
+        },
         10 => (*r.pick(&[1u16, 2, 3]), { let l = r.below(12) as usize; r.bytes(l) }),
         _ => (*r.pick(&[0u16, 1, 2, 3]), Vec::new()),
     };
@@ -695,6 +700,47 @@ fn run_sequence(out: &mut Out, sv: &Servers, probe: &Router, seqno: usize, reqs:
     if pressure { out.count("dispatch.pressure_sequences"); }
 }
 
+/// Teardown scenario: a pipelined burst of requests with sizeable responses followed by an unusable (text) frame, the
+/// client reading only afterwards. The well-framed requests were all read and dispatched before the bad frame, so
+/// each must still get its one response before the connection closes.
+fn burst_then_garbage(out: &mut Out, sv: &Servers, n: usize, seqno: usize) {
+    use tokio_tungstenite::tungstenite::Message as WsMsg;
+    let ep = sv.eps.iter().find(|e| e.name == "wsp").unwrap();
+    let url = format!("ws://{}/repe", ep.addr);
+    let body = format!("\"{}\"", "y".repeat(120_000)).into_bytes();
+    let got: Option<Vec<u64>> = sv.rt.block_on(async {
+        let (mut ws, _) = tokio_tungstenite::connect_async(&url).await.ok()?;
+        for i in 0..n {
+            let f = RawFrame::request(920_000 + i as u64, false, 1, b"/json", 2, &body).to_vec();
+            ws.send(WsMsg::Binary(f)).await.ok()?;
+        }
+        ws.send(WsMsg::Text("not a repe frame".into())).await.ok()?;
+        tokio::time::sleep(Duration::from_millis(150)).await;
+        let mut ids = Vec::new();
+        let t = Instant::now();
+        while t.elapsed() < Duration::from_secs(15) {
+            match tokio::time::timeout(Duration::from_secs(3), ws.next()).await {
+                Ok(Some(Ok(WsMsg::Binary(b)))) => { if let Some(h) = RawHeader::parse(&b) { ids.push(h.id); } }
+                Ok(Some(Ok(_))) => {}
+                _ => break,
+            }
+        }
+        Some(ids)
+    });
+    let ops = vec![format!("teardown {} {}", seqno, n)];
+    match got {
+        None => out.count("dispatch.teardown.connect_failed"),
+        Some(ids) => {
+            let want: Vec<u64> = (0..n).map(|i| 920_000 + i as u64).collect();
+            if ids != want {
+                out.oracle_fail("dispatch.teardown.responses_lost", &format!("{} well-framed requests were sent before an unusable frame; responses received: {:?}", n, ids), &ops);
+            } else {
+                out.count("dispatch.teardown.ok");
+            }
+        }
+    }
+}
+
 /// A sequence that keeps outbound queues full: large echoed bodies interleaved with rejected requests
 /// and small inline ones, read slowly by the client.
 fn gen_pressure(r: &mut Rng, base_id: u64) -> Vec<ReqSpec> {
@@ -761,6 +807,10 @@ fn main() {
             if s % 16 == 5 {
                 let k = rng.range(3, 8) as usize;
                 busy_pool_close(&mut out, &sv, k, s);
+            }
+            if s % 16 == 9 {
+                let k = rng.range(4, 10) as usize;
+                burst_then_garbage(&mut out, &sv, k, s);
             }
         }
     }
